@@ -794,6 +794,41 @@ func runC05(r *ev.Run) {
 					})
 				}
 			}
+			// a reconnect: the cache is purged and filled again with the contents the database has by then (a monitor reply)
+			for _, c2 := range valid {
+				s2 := e.decode(c2)
+				tc := e.newCache()
+				if err := e.build(tc, s); err != nil {
+					panic(err)
+				}
+				tc.Purge(e.dbm)
+				r.Add("transitions", 1)
+				r.Add("purge_transitions", 1)
+				empty := make(c05State, len(s))
+				for k := range empty {
+					empty[k] = -1
+				}
+				kind, typ, msg := e.check(tc, empty, true)
+				step := "after-purge"
+				if msg == "" {
+					reply := ovsdb.TableUpdates2{"T": {}}
+					for k, v := range s2 {
+						if v >= 0 {
+							reply["T"][c05UUIDs[k]] = &ovsdb.RowUpdate2{Initial: e.row(v, c05UUIDs[k])}
+						}
+					}
+					step = "after-purge-and-refill"
+					if err := tc.Populate2(reply); err != nil {
+						kind, typ, msg = "error", "-", err.Error()
+					} else {
+						kind, typ, msg = e.check(tc, s2, true)
+					}
+				}
+				if msg != "" {
+					r.Violation(fmt.Sprintf("c05.purge.%s.%s.%s", step, typ, kind), fmt.Sprintf("[%s] %s: %s", cfg.name, step, msg),
+						c05Case{cfg.name, "purge+populate2", e.descState(s), nil, e.descState(s2), nil, msg, []interface{}{s, s2}})
+				}
+			}
 			if i < 2 && len(valid) > 10 {
 				r.Sample(map[string]interface{}{"index_config": cfg.name, "start": e.descState(s), "example_batch_to": e.descState(e.decode(valid[(i+7)%len(valid)]))})
 			}
